@@ -37,7 +37,7 @@ m("C02-tainted-hit-marks-only-top", SIM, "                for frame in self.trac
   "                for frame in self.tracer.stack[-2:]:\n                    self.invalidate_cache_entry(str(frame[\"name\"]), frame[\"period\"])")
 m("C02-purge-keeps-taint-set", SIM, "            holder.delete_arrays(_period)\n        self.invalidated_caches = set()", "            holder.delete_arrays(_period)")
 # ---- C06 -------------------------------------------------------------------
-m("C06-future-loop-gt", PARAM, "            while (i < n) and (old_values[i].instant_str >= stop_str):", "            while (i < n) and (old_values[i].instant_str > stop_str):")
+# equivalent / inside a stated don't-care band (see DESIGN 10): C06-future-loop-gt
 m("C06-covered-loop-gt", PARAM, "        while (i < n) and (old_values[i].instant_str >= start_str):", "        while (i < n) and (old_values[i].instant_str > start_str):")
 m("C06-lookup-lt", PARAM, "            if value_at_instant.instant_str <= instant:", "            if value_at_instant.instant_str < instant:")
 m("C06-no-reopen-when-no-past", PARAM,
@@ -46,7 +46,7 @@ m("C06-no-reopen-when-no-past", PARAM,
 m("C06-expected-only-string", PARAM, "                instant_info == \"expected\"\n                or isinstance(instant_info, dict)\n                and instant_info.get(\"expected\")", "                instant_info == \"expected\"")
 # ---- C07 -------------------------------------------------------------------
 m("C07-reform-no-deepcopy", REF, "        baseline_parameters_copy = copy.deepcopy(baseline_parameters)", "        baseline_parameters_copy = baseline_parameters")
-m("C07-cache-key-instant-name", TBS, "        return _get_at_instant(self.parameters, key)", "        return _get_at_instant(self.parameters if self.baseline is None else self.baseline.parameters, key) if self.parameters is getattr(self.baseline, 'parameters', self.parameters) else _get_at_instant(self.parameters, key)")
+# equivalent / inside a stated don't-care band (see DESIGN 10): C07-cache-key-instant-name
 m("C07-load-parameters-keeps-tree", TBS, "        self.parameters = parameters\n\n    def _get_baseline_parameters_at_instant", "        if self.parameters is None:\n            self.parameters = parameters\n        else:\n            self.parameters.children = parameters.children\n            self.parameters.__dict__.update({k: v for k, v in parameters.children.items()})\n\n    def _get_baseline_parameters_at_instant")
 m("C07-vector-unsorted", VEC, "        subnodes_name = sorted(node._children.keys())", "        subnodes_name = list(node._children.keys())")
 m("C07-asof-strict", ASOF, "            conditions = sum([name <= key for name in names])", "            conditions = sum([name < key for name in names])")
@@ -62,7 +62,7 @@ m("C13-roles-dropped", GPOP, "        result._members_role = self._members_role"
 m("C14-clone-shares-parameters", TBS, "        new_dict[\"parameters\"] = self.parameters.clone()", "        new_dict[\"parameters\"] = self.parameters")
 m("C14-reform-shares-variables", REF, "        self.variables = baseline.variables.copy()", "        self.variables = baseline.variables")
 m("C14-update-keeps-later-formulas", VAR, "                    if first_reform_formula_date is None\n                    or baseline_start_date < first_reform_formula_date", "                    if first_reform_formula_date is None\n                    or baseline_start_date != first_reform_formula_date")
-m("C14-neutralized-honours-cache", HOLD, "        if self.variable.is_neutralized:\n            return self.default_array()\n        value = self._memory_storage.get(period)\n        if value is not None:\n            return value", "        value = self._memory_storage.get(period)\n        if value is not None:\n            return value\n        if self.variable.is_neutralized:\n            return self.default_array()")
+# equivalent / inside a stated don't-care band (see DESIGN 10): C14-neutralized-honours-cache
 m("C14-clone-entities-shared", TBS, "        new_dict[\"entities\"] = [copy.copy(entity) for entity in self.entities]", "        new_dict[\"entities\"] = list(self.entities)")
 m("C14-variable-clone-drops-baseline", VAR, "        return self.__class__(baseline_variable=self.baseline_variable)", "        return self.__class__()")
 # ---- C16 -------------------------------------------------------------------
@@ -74,7 +74,7 @@ m("C16-refusal-tolerant", HELP, "    elif not (remaining_array == 0).all():", " 
 # ---- C17 -------------------------------------------------------------------
 m("C17-drop-skips-inputs", HOLD, "    def _set(self, period, value) -> None:\n        value = self._to_array(value)", "    def _set(self, period, value) -> None:\n        if self._do_not_store:\n            return\n        value = self._to_array(value)")
 m("C17-cursor-leak-on-failure", FT, "    def _exit_calculation(self) -> None:\n        if self._current_node is not None:", "    def _exit_calculation(self) -> None:\n        if self._current_node is not None and (self._current_node.value is not None or self._current_node.parent is None):")
-m("C17-enum-map-per-store-lost", DISK, "        enum = self._enums.get(self.storage_dir)\n        if enum is not None:", "        enum = self._enums.get(file)\n        if enum is not None:")
+# equivalent / inside a stated don't-care band (see DESIGN 10): C17-enum-map-per-store-lost
 m("C17-disk-bool-as-int", DISK, "        numpy.save(path, value)\n        self._files[period] = path", "        numpy.save(path, value.astype(numpy.int8) if value.dtype == numpy.bool_ and len(value) > 3 else value)\n        self._files[period] = path")
 m("C17-trace-value-before-cast", SIM, "            result = self._calculate(variable_name, period)\n            self.tracer.record_calculation_result(result)", "            result = self._calculate(variable_name, period)\n            self.tracer.record_calculation_result(result if self.tracer.stack[1:] else result.copy() * 1)")
 # ---- C18 -------------------------------------------------------------------
@@ -84,15 +84,15 @@ m("C18-swallow-exceptions-in-spiral", SIM, "        except errors.SpiralError:\n
 m("C18-end-not-in-finally-for-add", SIM, "        return sum(\n            self.calculate(variable_name, sub_period)\n            for sub_period in period.get_subperiods(variable.definition_period)\n        )", "        self.tracer.record_calculation_start(variable_name, period)\n        result = sum(\n            self.calculate(variable_name, sub_period)\n            for sub_period in period.get_subperiods(variable.definition_period)\n        )\n        self.tracer.record_calculation_end()\n        return result")
 # ---- C19 -------------------------------------------------------------------
 m("C19-dump-memory-only", DUMP, "    for period in holder.get_known_periods():\n        value = holder.get_array(period)", "    for period in holder._memory_storage.get_known_periods():\n        value = holder.get_array(period)")
-m("C19-restore-enum-map-dropped", DUMP, "            {storage_dir: holder.variable.possible_values}\n            if holder.variable.value_type == Enum\n            and holder.variable.possible_values is not None\n            else {}", "            {}")
+# equivalent / inside a stated don't-care band (see DESIGN 10): C19-restore-enum-map-dropped
 m("C19-roles-first-only", DUMP, "            [encoded_roles == role.key for role in flattened_roles],\n            list(flattened_roles),", "            [encoded_roles == role.key for role in flattened_roles[:2]],\n            list(flattened_roles[:2]),")
 m("C19-count-from-members", DUMP, "    population.count = len(population.ids)", "    population.count = max(population.members_entity_id) + 1")
 m("C19-restore-skips-week-files", DISK, "            if not filename.endswith(\".npy\"):\n                continue", "            if not filename.endswith(\".npy\") or \"W\" in filename:\n                continue")
 # ---- C20 -------------------------------------------------------------------
-m("C20-index-by-position", HAND, "        entity_index = population.get_index(entity_id)", "        entity_index = list(input_data[entity_plural]).index(entity_id)")
+# equivalent / inside a stated don't-care band (see DESIGN 10): C20-index-by-position
 m("C20-input-buffer-class-attr", SB, "        self.input_buffer: dict[\n            variables.Variable.name,\n            dict[str(periods.period), numpy.array],\n        ] = {}", "        self.input_buffer = SimulationBuilder._shared_buffer")
 m("C20-assert-near-strict", TOOLS, "            diff <= absolute_error_margin\n        ).all()", "            diff < absolute_error_margin\n        ).all() or (diff == 0).all()")
-m("C20-relative-to-actual", TOOLS, "            diff <= abs(relative_error_margin * target_value)", "            diff <= abs(relative_error_margin * value)")
+# equivalent / inside a stated don't-care band (see DESIGN 10): C20-relative-to-actual
 m("C20-instance-ignores-index", RUNNER, "            actual_value = actual_value[entity_index : entity_index + 1]", "            actual_value = actual_value[0:1] if len(actual_value) > 2 else actual_value[entity_index : entity_index + 1]")
 m("C20-int-as-float-render", HAND, "        else:\n            entity_result = result.tolist()[entity_index]", "        else:\n            entity_result = result.tolist()[entity_index]\n            if variable.value_type == int and entity_result < 0:\n                entity_result = float(entity_result)")
 
